@@ -39,7 +39,7 @@ GROUPS = {
     'records': {'deal/introspection/_wrappers.py': ['<file>']},
     'stubfile': {'deal/linter/_stub.py': ['StubFile.__init__', 'StubFile.load', 'StubFile.dump', 'StubFile.add', 'StubFile.get', 'StubsManager.__init__', 'StubsManager.read',
                                           'StubsManager._get_module_name', 'StubsManager.get', 'StubsManager.create', '_get_funcs']},
-    'climain': {'deal/_cli/_main.py': ['<file>'], 'deal/_cli/_common.py': ['<file>'], 'deal/__main__.py': ['<file>'], 'deal/_cli/_base.py': ['<file>']},
+    'climain': {'deal/_cli/_main.py': ['<file>'], 'deal/_cli/_common.py': ['<file>'], 'deal/__main__.py': ['<file>'], 'deal/linter/__main__.py': ['<file>'], 'deal/_cli/_base.py': ['<file>']},
     'lintmisc': {'deal/linter/_extractors/result.py': ['<file>'], 'deal/linter/_extractors/asserts.py': ['<file>'], 'deal/linter/_extractors/imports.py': ['<file>'],
                  'deal/linter/_extractors/__init__.py': ['<file>'], 'deal/_cached_property.py': ['<file>']},
     'lintrules': {'deal/linter/_rules.py': ['<constants>', 'register', 'CheckImports.__call__', 'CheckEnsureArgs.__call__', 'CheckEnsureArgs._check', 'CheckReturns.__call__', 'CheckExamples.__call__', 'CheckAsserts.__call__'],
